@@ -162,11 +162,8 @@ func NewLinearTransformation(params rlwe.ParameterProvider, ltparams Parameters)
 	if logBabyStepGiantStepRatio < 0 {
 		N1 = 0
 		for _, i := range diagslislt {
-			idx := i
-			if idx < 0 {
-				idx += cols
-			}
-			vec[idx] = ringQP.NewPoly()
+			// indexes are interpreted modulo the (power of two) matrix dimension
+			vec[i&(cols-1)] = ringQP.NewPoly()
 		}
 	} else {
 		N1 = FindBestBSGSRatio(diagslislt, cols, logBabyStepGiantStepRatio)
@@ -221,10 +218,7 @@ func Encode[T any](encoder schemes.Encoder, diagonals Diagonals[T], allocated Li
 	if N1 == 0 {
 		for _, i := range diags {
 
-			idx := i
-			if idx < 0 {
-				idx += cols
-			}
+			idx := i & (cols - 1)
 
 			if vec, ok := allocated.Vec[idx]; !ok {
 				return fmt.Errorf("cannot Encode: error encoding on LinearTransformation: plaintext diagonal [%d] does not exist", idx)
